@@ -1395,7 +1395,12 @@ def bind_params(eng, f, recv, args, kwargs, st, c=None):
 
 def is_trivial(f):
     b = f.body
-    return len(b) == 1 and isinstance(b[0], (ast.Return, ast.Pass))
+    if len(b) != 1:
+        return False
+    if isinstance(b[0], (ast.Return, ast.Pass)):
+        return True
+    # a one-statement forwarder such as  super().__init__(stream)  /  self._set_stream(stream)
+    return isinstance(b[0], ast.Expr) and isinstance(b[0].value, ast.Call) and f.name == "__init__"
 
 
 def call_function(eng, f, recv, args, kwargs, st, recv_static=None, via_super=False, exact=False):
@@ -1544,12 +1549,19 @@ def apply_contract(eng, c, f, recv, args, kwargs, st):
     for exc, cond in list(c.raises) + list(c.may_raise):
         g = eng.spec_eval(cond, pre, old=pre, env=spec_env)
         s3 = st.fork().assume(g)
-        if c.on_raise != "unchanged":
-            paths = c.modifies if c.on_raise == "any" else c.on_raise
+        orz = c.on_raise
+        if isinstance(orz, dict):
+            orz = "unchanged"
+            for k2, v2 in c.on_raise.items():
+                if exc_is(exc, k2):
+                    orz = v2
+                    break
+        if orz != "unchanged":
+            paths = c.modifies if orz == "any" else orz
             havoc_paths(eng, paths, env, s3)
             for cl in c.exc_ensures:
                 s3.assume(eng.spec_eval(cl, s3, old=pre, env=spec_env))
-        if c.on_raise != "unchanged":
+        if orz != "unchanged":
             apply_preserves(eng, c, st.env, s3, pre)
         s3.notes.append("%s raised %s" % (c.qual, exc))
         outs.append((s3, Raise(exc, origin="callee:" + c.qual, site="call:%s#%d" % (c.qual, k))))
